@@ -7,6 +7,7 @@ import Complgen.Cert.Canon
 import Complgen.Cert.Det
 import Complgen.Spec.Den
 import Complgen.Spec.Warn
+import Complgen.Spec.Complete
 import Complgen.Gen.Chains
 import Complgen.Gen.Tables
 import Complgen.Gen.Diag
@@ -80,6 +81,38 @@ def regexText (r : Regex) : String :=
     if f.isEmpty then none else some s!"{p}:{",".intercalate (f.map toString)}")
   s!"inputs {" | ".intercalate (r.inputs.map RxInput.text)} ; end {r.endPos} ; tree {("K 2 " ++ r.root.text ++ s!"Z {r.endPos}")} ; nullable {r.nullable} ; first {",".intercalate ((normSet r.first).map toString)} ; follow {follow}"
 
+def optListText : Option (List String) → String
+  | none => "N"
+  | some [] => "E"
+  | some cs => ",".intercalate (sortStrings (cs.map Hex.encode))
+
+def callsText (cs : List Spec.Complete.Call) : String :=
+  if cs.isEmpty then "E" else
+  ",".intercalate (sortStrings (cs.map fun c => s!"{Hex.encode c.cmd}/{Hex.encode c.a1}/{Hex.encode c.a2}"))
+
+def parseOutTable (s : String) : String → List String :=
+  let rows : List (String × List String) := if s == "-" then [] else
+    (s.splitOn ";").filterMap fun row =>
+      match row.splitOn "=" with
+      | [c, ls] => do
+        let c ← Hex.decode c
+        let ls ← ((ls.splitOn ",").filter (· ≠ "")).mapM Hex.decode
+        some (c, ls)
+      | _ => none
+  fun c => ((rows.find? (·.1 == c)).map (·.2)).getD []
+
+def completeOne (W : Spec.Complete.World) (cl : String) : String :=
+  match (cl.splitOn ",").mapM Hex.decode with
+  | some (wb :: rest) =>
+    match rest.reverse with
+    | p :: wsRev =>
+      let a := Spec.Complete.complete W wsRev.reverse p wb
+      let lw := match a.lenientWord with | none => "-" | some x => optListText x
+      let ll := match a.lenientLast with | none => "-" | some x => optListText x
+      s!"{optListText a.strict}|{if a.ambiguous then 1 else 0}|{lw}|{ll}|{callsText a.required}|{callsText a.allowed}"
+    | [] => "bad-cmdline"
+  | _ => "bad-cmdline"
+
 def handle (line : String) : String :=
   let line := line.trimAscii.toString
   match line.splitOn " " with
@@ -148,6 +181,12 @@ def handle (line : String) : String :=
       | .ok g => "ok " ++ Grammar.text g
       | .error sp => s!"err {sp.text}"
     | none => "bad-op"
+  | "complete" :: sh :: out :: cls :: rest =>
+    match shellOf sh, readGrammar (" ".intercalate rest) with
+    | some sh, some g =>
+      let W := Spec.Complete.worldOf g sh (parseOutTable out)
+      "ok " ++ " ; ".intercalate ((cls.splitOn ";").map (completeOne W))
+    | _, _ => "bad-op"
   | ["labels"] =>
     "ok " ++ " ".intercalate (Gen.diagLabels.map fun (k, v) => s!"{Hex.encode k}:{Hex.encode v}")
   | ["canon", a] =>
